@@ -154,6 +154,8 @@ impl ProgressStyle {
             self.char_width > 0,
             "progress chars must not be zero-width"
         );
+        // A tab cannot be a cell of a bar: its expansion is not `char_width` columns wide
+        assert!(!s.contains('\t'), "progress chars must not contain tabs");
         self
     }
 
@@ -272,7 +274,9 @@ impl ProgressStyle {
                                     )
                                 ))
                                 .unwrap(),
-                            "spinner" => buf.push_str(self.current_tick_str(state)),
+                            "spinner" => TabRewriter(&mut buf, self.tab_width)
+                                .write_str(self.current_tick_str(state))
+                                .unwrap(),
                             "wide_msg" => {
                                 wide = Some(WideElement::Message { align });
                                 buf.push('\x00');
